@@ -1,4 +1,5 @@
 use std::{
+    ffi::{OsStr, OsString}, os::unix::ffi::OsStrExt,
     path::{Path, PathBuf},
     env::current_dir, sync::OnceLock, fs::ReadDir,
 };
@@ -50,11 +51,10 @@ fn ls_file_dir(file: &Path) -> Result<ReadDir> {
     Ok(ls_dir)
 }
 
-fn filename(path: &Path) -> Result<String> {
+fn filename(path: &Path) -> Result<OsString> {
     let fname = path.file_name()
-        .ok_or(XcpError::InvalidArguments(format!("Invalid path found: {:?}", path)))?
-        .to_string_lossy();
-    Ok(fname.to_string())
+        .ok_or(XcpError::InvalidArguments(format!("Invalid path found: {:?}", path)))?;
+    Ok(fname.to_os_string())
 }
 
 fn has_backup(file: &Path) -> Result<bool> {
@@ -77,16 +77,20 @@ fn next_backup_num(file: &Path) -> Result<u64> {
     Ok(current + 1)
 }
 
-fn is_num_backup(base_file: &str, candidate: &Path) -> Option<u64> {
-    let cname = candidate
+fn is_num_backup<S: AsRef<OsStr>>(base_file: S, candidate: &Path) -> Option<u64> {
+    // Compare raw bytes: file names need not be UTF-8.
+    let rest = candidate
         .file_name()?
-        .to_str()?;
-    if !cname.starts_with(base_file) {
-        return None
-    }
+        .as_bytes()
+        .strip_prefix(base_file.as_ref().as_bytes())?;
     let ext = candidate
         .extension()?
         .to_string_lossy();
+    // A backup of `name` is exactly `name.~N~`, not any longer name
+    // that merely starts with `name` and ends in `.~N~`.
+    if rest.len() != ext.len() + 1 || rest[0] != b'.' {
+        return None
+    }
     let num = get_regex()
         .captures(&ext)?
         .get(1)?
